@@ -27,7 +27,18 @@ def model_constants(inst):
     produced = set().union(*sets.values()) if sets else set()
     gets = {t: {s for s in g if s in produced} for t, g in gets.items()}   # externally provided states are taken as given
     unsets = {t: set(c["tests"][t]["unsets"]) if t in c["tests"] else set() for t in tests}
+    # static pick priority (the code's own comparator over the parse prefixes); only meaningful for eagerly parsed graphs
+    prio = {t: 0 for t in tests}
+    try:
+        from functools import cmp_to_key
+        from avocado_i2n.cartgraph import TestNode
+        keyed = [t for t in comp if c["tests"][t].get("long_prefix")]
+        ranked = sorted(keyed, key=cmp_to_key(lambda a, b: TestNode.prefix_priority(c["tests"][a]["long_prefix"], c["tests"][b]["long_prefix"])))
+        prio.update({t: i + 1 for i, t in enumerate(ranked)})
+    except Exception:
+        pass
     return {
+        "prio": prio,
         "tests": tests, "flat": flats, "setup": setup, "gets": gets, "sets": sets, "unsets": unsets,
         "objroots": {t for t in comp if c["tests"][t]["objroot"]},
         "stateful": {t for t in comp if not c["tests"][t].get("stateless")},
@@ -44,7 +55,7 @@ def fun(dom, f, var="t", domname="MCTests"):
 
 
 def write_mc(work, name, mc, pools, spec, statuses, maxtries=1, maxconc=1, rerun=None, stop=(), maxbounce=1, lazy=True, invariants=(),
-             constraint=None, postcondition=None, extra_cfg="", dry=False):
+             constraint=None, postcondition=None, extra_cfg="", dry=False, useprio=False):
     """pools: list of dict loc -> set(states)"""
     ws = mc["workers"]
     with open(os.path.join(work, name + ".tla"), "w") as f:
@@ -55,6 +66,7 @@ def write_mc(work, name, mc, pools, spec, statuses, maxtries=1, maxconc=1, rerun
             f.write("%s == %s\n" % (const, fun(mc["tests"], lambda t: tla(mc[key][t]))))
         f.write("MCClosure == %s\n" % (fun(mc["flat"], lambda t: tla(mc["closure"][t]), "f", "MCFlat") if mc["flat"] else "<<>>"))
         f.write("MCUnrestricted == %s\n" % tla(set(mc["unrestricted"])))
+        f.write("MCPrio == %s\n" % fun(mc["tests"], lambda t: str(mc["prio"].get(t, 0))))
         f.write("MCIncompatible == %s\n" % tla(set(mc.get("incompatible", []))))
         locs = ["shared"] + ws
         f.write("MCInitPools == {%s}\n" % ",\n  ".join(
@@ -65,8 +77,8 @@ def write_mc(work, name, mc, pools, spec, statuses, maxtries=1, maxconc=1, rerun
         f.write("SPECIFICATION %s\nCONSTANTS\n W <- MCW\n WOrder <- MCWOrder\n Tests <- MCTests\n Root = \"t0\"\n FlatLeaves <- MCFlat\n ObjRoots <- MCObjRoots\n"
                 " Stateful <- MCStateful\n Setup <- MCSetup\n Gets <- MCGets\n Sets <- MCSets\n UnsetSets <- MCUnsetSets\n Removable <- MCRemovable\n"
                 " Closure <- MCClosure\n Unrestricted <- MCUnrestricted\n Incompatible <- MCIncompatible\n InitPools <- MCInitPools\n Statuses <- MCStatuses\n MaxTries = %d\n MaxConc = %d\n"
-                " RerunSet <- MCRerun\n StopSet <- MCStop\n MaxBounce = %d\n Lazy = %s\n DryRun = %s\n"
-                % (spec, maxtries, maxconc, maxbounce, "TRUE" if lazy else "FALSE", "TRUE" if dry else "FALSE"))
+                " RerunSet <- MCRerun\n StopSet <- MCStop\n MaxBounce = %d\n Lazy = %s\n DryRun = %s\n Prio <- MCPrio\n UsePrio = %s\n"
+                % (spec, maxtries, maxconc, maxbounce, "TRUE" if lazy else "FALSE", "TRUE" if dry else "FALSE", "TRUE" if useprio else "FALSE"))
         for inv in invariants:
             f.write("INVARIANT %s\n" % inv)
         if constraint:
